@@ -107,7 +107,7 @@ def ddmin(scratch, case, make_monitors, sig, budget=30, inject=False):
     params = case['params']
     # snapshot-based steps leave the world as they found it: first try to
     # drop all of them except the last one (usually the failing one)
-    side = ('fault', 'placed', 'rejected', 'twin', 'probe_path')
+    side = ('fault', 'placed', 'rejected', 'cmdfail', 'twin', 'probe_path')
     idx = [i for i, st_ in enumerate(steps) if st_['op'] in side]
     if len(idx) > 1:
         cand = [st_ for i, st_ in enumerate(steps)
